@@ -448,3 +448,91 @@ def unit_rescale(kind, bounds_given, with_lower_bounds=False, timeout_ms=20000):
             eng.oblige_nra("shift-is-b-and-scale-is-a", z3.And(RealV.of(bb) == b, RealV.of(got.args[1]) == a) if isinstance(bb, RealV) and isinstance(got.args[1], RealV) else z3.BoolVal(False))
     return run_unit(f"kpm:rescale[{kind},{'bounds given' if bounds_given else 'bounds computed'}{',lower_bounds' if with_lower_bounds else ''}]", harness,
                     functions=[(MODULE, "rescale")], timeout_ms=timeout_ms)
+
+
+# ------------------------------------------------------------------------------------------------
+# kpm_vectors: the generator yields the Chebyshev vectors T_n(H) v, n = 0, 1, 2, ... (unbounded: loop invariant)
+# ------------------------------------------------------------------------------------------------
+
+def unit_kpm_vectors(timeout_ms=20000):
+    """kpm.kpm_vectors(H, v) yields T_0(H) v, T_1(H) v, T_2(H) v, ... with the Chebyshev recurrence  T_0 = 1, T_1 = H, T_{n+1} = 2 H T_n - T_{n-1}  (ghost function Cheb, instantiated where needed).
+    Vectors are elements of an uninterpreted sort with the operations the code uses (c H x, x - y); nothing about them is assumed except what the recurrence says.
+    Invariant of the `while True` loop after k >= 2 values were produced:  alpha = Cheb(k - 1), alpha_prev = Cheb(k - 2).
+    What is NOT modelled: Python's generator protocol itself (a `yield` is taken as 'append to the output sequence and go on')."""
+    fn = frontend.find(MODULE, "kpm_vectors")
+
+    def harness(eng):
+        Vec = z3.DeclareSort("Vec")
+        v0 = z3.Const("v", Vec)
+        Happ = z3.Function("cH_times", z3.IntSort(), Vec, Vec)          # c * H @ x
+        Sub = z3.Function("minus", Vec, Vec, Vec)
+        Cheb = z3.Function("Cheb", z3.IntSort(), Vec)
+
+        def cheb_axioms(n):
+            """instances of the definition of Cheb at index n (n an integer term)"""
+            return z3.And(Cheb(0) == v0, Cheb(1) == Happ(1, v0), z3.Implies(n >= 1, Cheb(n + 1) == Sub(Happ(2, Cheb(n)), Cheb(n - 1))))
+
+        class VecM(Model):
+            def __init__(s, t):
+                s.t = t
+
+            def m_binop(s, e, op, other, reflected):
+                if isinstance(op, ast.Sub) and isinstance(other, VecM):
+                    return VecM(Sub(other.t, s.t) if reflected else Sub(s.t, other.t))
+                return NotImplemented
+
+        class HM(Model):
+            def __init__(s, c=1):
+                s.c = c
+
+            def m_binop(s, e, op, other, reflected):
+                if isinstance(op, ast.Mult) and isinstance(other, int):
+                    return HM(s.c * other)
+                if isinstance(op, ast.MatMult) and not reflected and isinstance(other, VecM):
+                    return VecM(Happ(s.c, other.t))
+                return NotImplemented
+        out = []
+
+        def e_yield(e, env):
+            val = eng.eval(e.value, env)
+            out.append(val)
+            return None
+        eng.e_Yield = e_yield
+        state = {}
+
+        def while_rule(e, s, env):
+            # entry: the invariant holds with k = number of values produced so far
+            k0 = len(out)
+            state["entry"] = (k0, env.lookup("alpha"), env.lookup("alpha_prev"))
+            if not (isinstance(s.test, ast.Constant) and s.test.value is True):
+                raise Unsupported("the loop of kpm_vectors is expected to be `while True`")
+            # arbitrary iteration
+            n = e.fresh("n")                       # alpha = Cheb(n), alpha_prev = Cheb(n - 1), n >= 1
+            e.assume(n >= 1)
+            e.assume(cheb_axioms(n))
+            env.set("alpha", VecM(Cheb(n)))
+            env.set("alpha_prev", VecM(Cheb(n - 1)))
+            before = len(out)
+            e.exec_block(s.body, env)
+            state["iter"] = (n, out[before:], env.lookup("alpha"), env.lookup("alpha_prev"))
+            del out[before:]
+            # the loop never exits: nothing after it is reachable
+        eng.while_rule = while_rule
+        eng.assume(cheb_axioms(z3.IntVal(1)))
+        eng.call(Closure(fn, Env(None, {}), "kpm_vectors"), [HM(), VecM(v0)], {})
+        eng.oblige("first-two-values-are-T_0(H)v-and-T_1(H)v", z3.And(z3.BoolVal(len(out) == 2 and all(isinstance(x, VecM) for x in out)),
+                                                                       *( [out[0].t == Cheb(0), out[1].t == Cheb(1)] if len(out) == 2 else [])))
+        ok = "entry" in state and "iter" in state
+        eng.oblige("loop-reached-and-one-arbitrary-iteration-executed", z3.BoolVal(ok))
+        if not ok:
+            return
+        k0, a, ap = state["entry"]
+        eng.oblige("invariant-holds-on-entry", z3.And(z3.BoolVal(k0 == 2 and isinstance(a, VecM) and isinstance(ap, VecM)), a.t == Cheb(1), ap.t == Cheb(0)))
+        n, ys, a2, ap2 = state["iter"]
+        eng.oblige("each-iteration-yields-exactly-one-value", z3.BoolVal(len(ys) == 1 and isinstance(ys[0], VecM)))
+        if len(ys) == 1:
+            eng.oblige("iteration-yields-the-next-Chebyshev-vector", ys[0].t == Cheb(n + 1), detail="T_{n+1}(H) v = 2 H T_n(H) v - T_{n-1}(H) v")
+        eng.oblige("invariant-preserved", z3.And(z3.BoolVal(isinstance(a2, VecM) and isinstance(ap2, VecM)), a2.t == Cheb(n + 1), ap2.t == Cheb(n)))
+    r = run_unit("kpm:kpm_vectors[Chebyshev recurrence, loop invariant]", harness, functions=[(MODULE, "kpm_vectors")], timeout_ms=timeout_ms)
+    r.used_models.add("generator protocol: `yield` appends to the output sequence (not modelled: suspension / resumption)")
+    return r
